@@ -155,6 +155,9 @@ type Conn struct {
 	dataHandler func(c *Conn, data []byte)
 
 	onConnected func(c *Conn, err error)
+	// dialPending: the non-blocking connect has not completed yet (EINPROGRESS);
+	// only then is write interest needed to learn its outcome.
+	dialPending bool
 }
 
 // Hash returns a hash code of this connection.
